@@ -1025,26 +1025,39 @@ func c12instExhaustive(j *c12jobs, all bool) {
 
 func c12instCorpus(j *c12jobs) {
 	for _, l := range []string{
-		// failed frontend map write: the retry is a no-op, the next host change heals
-		"0 0 0.0 a0.4.0,H0.1,u,R0,H0.2,u:fm,u,R0,H0.3,u",
-		// failed first update: haproxy.cfg is never written by the retry
+		// --- the histories of the theorems of Props/C12 (same order)
+		// non-vacuity of retry_converges_partial: a runtime command fails twice, the update reloads instead
+		"0 0 0.0 a0.4.0,H0.1,T1,u,r0,a0.5.0,u:ad0,r0,a0.4.0,u:ad0,r0,a0.5.0,u,u",
+		// non-vacuity of retry_converges_queue_partial: the worker fails twice, then reloads
+		"1 0 0.0 a0.4.0,u,q:rs,q:rr,u,q",
+		// lost_after_failed_tcp_map_write
+		"0 0 0.0 T1,u,T2,u:tm,u",
+		// lost_after_failed_frontend_map_write: the retry is a no-op, the next host change heals
+		"0 0 0.0 H0.1,u,R0,H0.2,u:fm,u,R0,H0.3,u",
+		// first_update_failure_leaves_no_cfg
 		"0 0 0.0 a0.4.0,H0.1,u:fm,u",
-		"0 0 0.0 a0.4.0,H0.1,u:mc,u",
-		// tcp map / crt-list / main cfg
-		"0 0 0.0 a0.4.0,H0.1,T1,u,T2,u:tm,u,T3,u:cl,u,T4,u:mc,u",
-		// shard files: fault on the second / first changed shard
-		"0 3 2.0 a0.4.0,a1.4.0,u,r0,a0.8.0,r1,a1.8.0,u:sh2,u",
-		"0 3 2.0 a0.4.0,a1.4.0,u,r0,a0.8.0,r1,a1.8.0,u:sh0,u",
-		// direct reload: request / result
-		"0 0 0.0 a0.4.0,u:rs,u",
+		// lost_after_failed_crtlist_write
+		"0 0 0.0 T1,u,T2,u:cl,u",
+		// lost_after_failed_cfg_write
+		"0 0 0.0 a0.4.0,u,r0,a0.8.0,u:mc,u",
+		// lost_after_failed_shard_write: second changed shard; a full resync does not rewrite it either
+		"0 3 2.0 a0.4.0,a1.4.0,u,r0,a0.8.0,r1,a1.8.0,u:sh2,u,F,a0.8.0,a1.8.0,u",
+		// reload_not_retried_after_failed_reload: request / result
+		"0 0 0.0 a0.4.0,u,r0,a0.8.0,u:rs,u",
 		"0 0 0.0 a0.4.0,u,r0,a0.8.0,u:rr,u",
-		// reload queue: the worker retries
-		"1 0 0.0 a0.4.0,u,q:rs,q:rr,q",
-		// admin socket: falls back to a reload
-		"0 0 0.0 a0.4.2,u,r0,a0.5.1,u:ad0,u",
+		// queue_does_not_help_a_failed_write
+		"1 0 0.0 a0.4.0,u,q,r0,a0.8.0,u:mc,u,q",
+		// --- more
+		"0 0 0.0 a0.4.0,H0.1,u:mc,u",
+		"0 0 0.0 a0.4.0,H0.1,T1,u,T2,u:tm,u,T3,u:cl,u,T4,u:mc,u",
+		"0 3 2.0 a0.4.0,a1.4.0,u,r0,a0.8.0,r1,a1.8.0,u:sh0,u",
+		"0 0 0.0 a0.4.0,u:rs,u",
 		"0 0 0.0 a0.4.2,u,r0,a0.5.1,u:ab1,u",
-		// a full resync after the fault does not bring a shard file back
-		"0 3 2.0 a0.4.0,a1.4.0,u,r0,a0.8.0,u:sh2,u,F,a0.8.0,a1.4.0,u",
+		// a backend acquired in a batch whose update failed early has no pathConfig: the next runtime update
+		// of it is refused ("diff outside endpoints") and reloads
+		"0 0 0.0 a0.4.0,T1,u,r0,a0.5.0,T2,u:tm,u,r0,a0.6.0,u,u",
+		// runtime commands to a HAProxy that never loaded the backend are answered "No such server."
+		"0 0 0.0 a0.4.0,u:rr,u,r0,a0.5.0,u,u",
 	} {
 		f := strings.Fields(l)
 		n, _ := strconv.Atoi(f[1])
@@ -1054,6 +1067,40 @@ func c12instCorpus(j *c12jobs) {
 			want = append(want, k)
 		}
 		c12instCase(j, f[0] == "1", n, want, strings.Split(f[3], ","))
+	}
+}
+
+// c12worldCorpus: minimised world histories, one per fault point and outcome (found with c12minimise)
+func c12worldCorpus(j *c12jobs) {
+	for _, l := range []string{
+		// frontend maps: the change of the ingress is lost
+		"s0 3:F=maps/_front_bind_crt.list+maps/_front_http_host__begin.map+maps/_front_https_host__begin.map svc+d/web!http:80:8080+adm:81:adm!- sync sync sync ing~d/i2@3!haproxy,-!-!b.local>/a:ImplementationSpecific:web:80!-!- sync sync sync",
+		// backend maps
+		"s0 2:F=maps/_back_d_api_8080_idpath__prefix.map+maps/_back_d_api_8080_idpathdef__begin.map svc+d/api!http:80:8080+adm:81:adm!- sync ing+d/i3@3!haproxy,-!-!c.local>/:Prefix:api:http!c.local>tls1!- ing+d/i2@4!haproxy,-!-!_>/b:ImplementationSpecific:api:80!-!- sync ep~d/api!10.0.2.4:r:api-4+10.0.2.2:r:api-2 sync sync sync",
+		"s0 1:F=maps/_back_e_web_8080_idpath__begin.map+maps/_back_e_web_8080_idpathdef__begin.map+maps/_back_e_web_8080_idpathdef__exact.map svc+e/web!http:80:8080+adm:81:adm!- ing+e/i1@1!haproxy,-!-!b.local>/a:ImplementationSpecific:web:http!b.local+a.local>tls2!web:80 sync sec+e/tls2!tls!1!a.local+b.local sync sync sync",
+		// a backend with ACLs added in a batch whose update fails at the frontend maps: PathsMap stays nil, every
+		// later update that writes haproxy.cfg fails in the template (reconciles 3 and 5 carry no fault)
+		"s0 1:F=maps/_front_bind_crt.list svc+d/api!http:80:8080+adm:81:adm!- ep~d/api!10.0.2.2:r:api-2 svc+d/web!http:80:8080+adm:81:adm!- ep~d/web!10.0.3.2:r:web-2 sync ing+d/i3@3!haproxy,-!-!c.local>/:Prefix:api:http!c.local>tls1!- ing+d/i2@4!haproxy,-!-!_>/b:ImplementationSpecific:api:80!-!- sync sync ing+d/i4@5!haproxy,-!-!b.local>/z:Prefix:web:http!-!- sync sync ep~d/web!10.0.3.3:r:web-3 sync",
+		// modsec / lua / haproxy.cfg / shard file
+		"s0 2:F=cfg/spoe-modsecurity.conf sync sync ing+e/i5@3!haproxy,-!-!_>/:Prefix:web:http!-!- sync sync sync",
+		"s0 1:F=cfg/lua/responses.lua svc+e/web!http:80:8080+adm:81:adm!- sync ing~e/i5@2!haproxy,-!-!b.local>/a:Exact:web:8080!-!- sync sync sync",
+		"s0 2:F=cfg/haproxy.cfg sync sync ing+d/i1@4!haproxy,-!app-root=/app!a.local>/a/b:Exact:web:9999!-!- sync sync sync",
+		"s3 1:F=cfg/haproxy.cfg sec+e/tls1!tls!1!a.local+b.local ing+e/i5@2!haproxy,-!-!-!a.local>tls1!- sync ing~e/i5@2!haproxy,-!-!-!-!- sync sync sync",
+		"s3 1:F=cfg/haproxy5-backend000.cfg svc+e/api!http:80:8080+adm:81:adm!- ing+e/i3@1!haproxy,-!-!_>/b:_:api:80!-!- sync ing-e/i3 sync sync sync",
+		// direct reload: request / result
+		"s3 1:RS sync ing+d/i4@1!haproxy,-!-!_>/a/b:_:api:http!-!- sync sync sync",
+		"s0 1:RF sync ing+d/i4@1!haproxy,-!-!_>/a/b:_:api:http!-!- sync sync sync",
+		// the fault repeats, then the retry
+		"s0 1:F=cfg/haproxy.cfg,2:F=cfg/haproxy.cfg sync ing+d/i1@4!haproxy,-!app-root=/app!a.local>/a/b:Exact:web:9999!-!- sync sync sync sync",
+		// admin socket: error / bad answer, falls back to a reload
+		"s0 1:AE* svc+d/api!http:80:8080+adm:81:adm!- ep~d/api!10.0.2.2:r:api-2 ing+d/i2@4!haproxy,-!-!a.local>/b:Prefix:api:80!-!- sync ep~d/api!10.0.2.3:r:api-2 sync sync",
+		"s0 1:AB0 svc+d/api!http:80:8080+adm:81:adm!- ep~d/api!10.0.2.2:r:api-2 ing+d/i2@4!haproxy,-!-!a.local>/b:Prefix:api:80!-!- sync ep~d/api!10.0.2.3:r:api-2 sync sync",
+		// no fault at all
+		"s0 - svc+d/app!http:80:8080+adm:81:adm!- ep~d/app!10.0.1.1:r:app-1 ing+d/i1@1!haproxy,-!-!a.local>/a:Prefix:app:http!-!- sync ep~d/app!10.0.1.2:r:app-1 sync sync",
+	} {
+		f := strings.Fields(l)
+		sh, _ := strconv.Atoi(strings.TrimPrefix(f[0], "s"))
+		c12worldCase(j, sh, f[1], f[2:])
 	}
 }
 
@@ -1703,9 +1750,110 @@ func c12worldGen(j *c12jobs, r *gen.Rng, count int) {
 	}
 }
 
+// c12minimise (development aid, C12_ONLY=minimise): shrinks generated world cases per category and prints
+// them; the results were pasted into c12worldCorpus
+func c12minimise(c *ctx, r *gen.Rng) {
+	seen := map[string]int{}
+	for i := 0; i < 400; i++ {
+		rr := r.Fork()
+		shards := gen.Pick(rr, []int{0, 0, 3})
+		cfg := world.DefaultGen()
+		cfg.Classes = false
+		cfg.MaxBatches = 3
+		hist := world.NewGen(rr.Fork(), cfg).History()
+		dry := c12worldRun(shards, nil, hist, false)
+		if dry.fail != "" || len(dry.steps) == 0 {
+			continue
+		}
+		k := rr.Intn(len(dry.steps))
+		st := dry.steps[k]
+		var opts []string
+		var fm, bm []string
+		for _, f := range st.written {
+			switch c12rank(f) {
+			case 1, 2:
+				fm = append(fm, f)
+			case 3:
+				bm = append(bm, f)
+			default:
+				opts = append(opts, "F="+f)
+			}
+		}
+		if len(fm) > 0 {
+			opts = append(opts, "F="+strings.Join(fm, "+"))
+		}
+		if len(bm) > 0 {
+			opts = append(opts, "F="+strings.Join(bm, "+"), "F="+strings.Join(bm, "+"))
+		}
+		if st.reload && st.sends == 0 {
+			opts = append(opts, "RS")
+		}
+		if st.sends > 0 {
+			opts = append(opts, "AE*")
+		}
+		if len(opts) == 0 {
+			continue
+		}
+		fault := gen.Pick(rr, opts)
+		var ops []string
+		n := 0
+		for _, o := range hist {
+			ops = append(ops, o)
+			if o == "sync" {
+				if n == k {
+					ops = append(ops, "sync", "sync")
+				}
+				n++
+			}
+		}
+		script := fmt.Sprintf("%d:%s", k, fault)
+		classify := func(res c12wrun, sc map[int]c12wfault) string {
+			if res.fail != "" {
+				return "fail"
+			}
+			for i, e := range res.errs {
+				if _, ok := sc[i]; !ok && e == "1" {
+					return "spurious"
+				}
+			}
+			if res.snap != "eq" {
+				return "stale"
+			}
+			if len(res.unload) > len(res.tunload) || (res.tbl != "eq" && res.tblt == "eq") {
+				return "unloaded"
+			}
+			return "ok"
+		}
+		sc := c12parseScript(script)
+		res := c12worldRun(shards, sc, ops, false)
+		kind := fault
+		if strings.HasPrefix(kind, "F=") {
+			kind = fmt.Sprintf("F%02d", min(c12rank(strings.Split(kind[2:], "+")[0]), 9))
+		}
+		cat := kind + "/" + classify(res, sc)
+		if seen[cat] >= 1 || strings.HasSuffix(cat, "/fail") {
+			continue
+		}
+		seen[cat]++
+		nsync := strings.Count(strings.Join(ops, " "), "sync")
+		min := world.Shrink(ops, func(o []string) bool {
+			if strings.Count(strings.Join(o, " "), "sync") != nsync {
+				return false
+			}
+			rr := c12worldRun(shards, sc, o, false)
+			return rr.fail == "" && kind+"/"+classify(rr, sc) == cat && strings.Join(rr.errs, ",") == strings.Join(res.errs, ",")
+		}, 150)
+		fmt.Fprintf(os.Stderr, "MIN %s: s%d %s %s\n", cat, shards, script, strings.Join(min, " "))
+	}
+}
+
 func runC12(c *ctx) {
 	r := gen.New(c.seed)
 	j := &c12jobs{c: c}
+	if os.Getenv("C12_ONLY") == "minimise" {
+		c12minimise(c, r.Fork())
+		return
+	}
 	if os.Getenv("C12_ONLY") == "world" {
 		nw := 150
 		if c.thorough() {
@@ -1726,6 +1874,7 @@ func runC12(c *ctx) {
 	if os.Getenv("C12_ONLY") == "inst" {
 		return
 	}
+	c12worldCorpus(j)
 	nw := 150
 	if c.thorough() {
 		nw = 2500
